@@ -162,7 +162,7 @@ func spendable(o outRef, h uint64) bool {
 	case 1:
 		return o.height+consensus.CoinbasePendingBlockNumber <= h
 	case 2:
-		return o.height+3 <= h
+		return o.height+consensus.VotePendingBlockNums(h) <= h
 	}
 	return true
 }
@@ -298,7 +298,7 @@ func (g *gen) resign(b *types.Block, key int) {
 }
 
 var kinds = []string{
-	"version", "height-plus", "height-minus", "prev-grand", "prev-unknown", "time-low", "time-high", "time-future-ok",
+	"version", "height-plus", "height-minus", "prev-grand", "prev-unknown", "time-low", "time-before-parent", "time-high", "time-future-ok",
 	"bad-signer", "sig-garbage", "wrong-slot", "merkle-random", "merkle-swap",
 	"tx-unbalanced", "tx-timerange", "tx-timerange-ok", "cb-extra-out", "cb-nonzero", "cb-two-inputs", "no-coinbase", "empty-block",
 	"reward-plus", "reward-minus", "reward-missing", "reward-wrongprog", "reward-split-ok",
@@ -359,6 +359,11 @@ func (g *gen) mutantBlock(parent *node, kind string) (*node, bool) {
 	case "time-low":
 		opt.Mutate = func(b *types.Block) { b.Timestamp = parent.bi.Block.Timestamp + iv - 1 - uint64(g.r.Intn(2))*iv }
 		opt.MutateAfter = func(b *types.Block) { g.resign(b, (proposer+3)%4) } // the slot before
+	case "time-before-parent":
+		// strictly earlier than the parent, signed by the validator whose slot that timestamp falls into
+		m := g.r.Intn(2)
+		opt.Mutate = func(b *types.Block) { b.Timestamp = parent.bi.Block.Timestamp - 1 - uint64(m)*iv }
+		opt.MutateAfter = func(b *types.Block) { g.resign(b, (proposer+8-2-m)%4) }
 	case "time-high", "time-future-ok":
 		round := iv * uint64(len(w.Keys))
 		limit := g.now + consensus.ActiveNetParams.MaxTimeOffsetMs
@@ -537,7 +542,7 @@ func (g *gen) mutantBlock(parent *node, kind string) (*node, bool) {
 		// a coinbase / vote output exactly one block before, or exactly at, the end of its waiting period
 		want, wait, early := 1, consensus.CoinbasePendingBlockNumber, uint64(0)
 		if kind == "spend-locked-edge" || kind == "veto-edge-ok" {
-			want, wait = 2, 3
+			want, wait = 2, consensus.VotePendingBlockNums(h)
 		}
 		if kind == "spend-immature-edge" || kind == "spend-locked-edge" {
 			early = 1
@@ -1161,7 +1166,11 @@ func childBatch(args []string) int {
 		fmt.Fprintln(os.Stderr, err)
 		return 2
 	}
-	w := cl.Init(cl.DefaultOptions())
+	// a two-range vote-lock schedule: 3 blocks below height 22, 5 blocks from there on; the lock that
+	// applies is the one in force at the height of the SPENDING block (state.applySpendUtxo)
+	opts := cl.DefaultOptions()
+	opts.VotePendingSwitch, opts.VotePendingLate = 22, 5
+	w := cl.Init(opts)
 	trunk := w.Trunk(w.Genesis, trunkLen)
 	out := bufio.NewWriter(os.Stdout)
 	for _, c := range cases {
